@@ -1101,11 +1101,16 @@ func c38Classify(r *c38Run) (sig, what string, evidence map[string]interface{}) 
 		ev["orphans_in_writech"] = r.Res.Orphans
 		writerAlive := strings.Contains(dump, "badger/v4.(*DB).doWrites")
 		st := h.Stack
+		// some goroutine of the dump (not only the calls already past their deadline) sits in all of subs
 		anyStack := func(subs ...string) bool {
+			blocks := strings.Split(dump, "\n\n")
 			for _, x := range r.Res.Hung {
+				blocks = append(blocks, x.Stack)
+			}
+			for _, x := range blocks {
 				all := true
 				for _, sub := range subs {
-					if !strings.Contains(x.Stack, sub) {
+					if !strings.Contains(x, sub) {
 						all = false
 					}
 				}
